@@ -8,7 +8,7 @@ SPEC = {
         "LibTw2.Model.Conn6": ["step", "needs_tick", "conn6_new"],
         "LibTw2.Model.Conn7": ["step7", "needs_tick7", "conn7_new"],
     },
-    "components": [{"bin": "conn", "driver": "drv_conn", "args": ["6,6nt,7", "sender,link"], "timeout": {"quick": 900, "thorough": 3000}}],
+    "components": [{"bin": "conn", "driver": "drv_conn", "args": ["6,6nt,7", "sender,link,wrap"], "timeout": {"quick": 900, "thorough": 3000}}],
     "release": False,
     "trusted_base": ["Model/ConnCore.v, Conn6.v, Conn7.v are hand-written from net/src/connection.rs / connection7.rs; datagrams are abstract packet values with structured chunks, their encoded size is tracked in the model; the byte level is Props/C05-C06",
                      "the correspondence feeds the model the packet value the REAL reader returns for each datagram and compares every emitted datagram (parsed by the real reader), event, warning, result, needs_tick and the complete state fingerprint (hook Connection::verif_fingerprint) after every label"],
